@@ -37,6 +37,9 @@ type fsmEvent struct {
 	WinClosed bool      // recording window closed while this event is processed
 	CheckFail bool      // CheckCanRecord of the motion sink refuses
 	StartFail bool      // StartRecording of the motion sink fails
+	// the camera ran a flat-field correction just before this frame: from here on the telemetry
+	// reports it as the last FFC (the next 10 s of frames are in the settling period)
+	FFC bool
 	// real time that passes before this event is processed (a camera delivering slower than its
 	// nominal frame rate, a stalled socket): recording lengths are counted in frames, not seconds
 	Stall time.Duration
@@ -141,6 +144,22 @@ func (s *monSink) result(op byte) error {
 }
 
 func (s *monSink) StartRecording(bg *cptvframe.Frame, thresh uint16) error {
+	if s.which == sinkTest && s.run.requestInsideTestStart && s.run.mp != nil {
+		// a second request from the service lands while the frame loop is inside the test
+		// recorder's StartRecording (emulated on this goroutine; never waited for long, so an
+		// implementation that makes requesters wait during the start is not mistaken for a hang)
+		mp := s.run.mp
+		done := make(chan struct{})
+		go func() {
+			mp.RequestSnapshot()
+			close(done)
+		}()
+		select {
+		case <-done:
+		case <-time.After(20 * time.Millisecond):
+		}
+		s.run.requestsInsideTestStart++
+	}
 	err := s.result(opStart)
 	op := sinkOp{Op: opStart, Err: err != nil, Thresh: thresh}
 	if s.run.keepBg && bg != nil {
@@ -210,6 +229,10 @@ type fsmRun struct {
 	// see fsmTimeOnMode, fsmCounterMode
 	timeOnMode  int
 	counterMode int
+	lastFFC     time.Duration
+	// issue another test-recording request from inside the test sink's StartRecording
+	requestInsideTestStart  bool
+	requestsInsideTestStart int
 }
 
 var snapBlockedOnce int32
@@ -289,6 +312,10 @@ func fsmTimeOn(seq int) time.Duration {
 // times (a counter running slower than the frames are delivered). Set per step by fsmRun.
 var fsmCounterMode int
 
+// fsmLastFFC is the time-on value the telemetry reports for the last flat-field correction
+// (one second after power-up unless a script says otherwise). Set per step by fsmRun.
+var fsmLastFFC = time.Second
+
 func fsmFrameCount(seq int) int {
 	switch fsmCounterMode {
 	case 1:
@@ -309,7 +336,7 @@ func fsmParse(raw []byte, out *cptvframe.Frame, edge int) error {
 	level := uint16(raw[5]) | uint16(raw[6])<<8
 	out.Status = cptvframe.Telemetry{
 		TimeOn:      fsmTimeOn(seq),
-		LastFFCTime: time.Second,
+		LastFFCTime: fsmLastFFC,
 		FrameCount:  fsmFrameCount(seq),
 		TempC:       float64(seq), // the harness' own frame id (camera temperature: used by no logic)
 	}
@@ -389,6 +416,13 @@ func (r *fsmRun) step(ev fsmEvent) *stepRec {
 	rec := &r.steps[len(r.steps)-1]
 	r.cur, r.curRec = &rec.Ev, rec
 	fsmTimeOnMode, fsmCounterMode = r.timeOnMode, r.counterMode
+	if r.lastFFC == 0 {
+		r.lastFFC = time.Second
+	}
+	if ev.FFC && (ev.Kind == evFrame || ev.Kind == evMotion || ev.Kind == evBad) {
+		r.lastFFC = fsmTimeOn(r.seq)
+	}
+	fsmLastFFC = r.lastFFC
 	if ev.Stall > 0 {
 		time.Sleep(ev.Stall)
 	}
@@ -515,6 +549,9 @@ func protocolScan(steps []stepRec, sink int) (recs []recording, viol []string) {
 func scriptString(evs []fsmEvent) string {
 	var sb strings.Builder
 	for _, e := range evs {
+		if e.FFC {
+			sb.WriteByte('F')
+		}
 		sb.WriteByte(e.Kind)
 		if e.WinClosed {
 			sb.WriteByte('w')
